@@ -65,6 +65,11 @@ class Evaluator:
                     mm, nn = r[1]
                     if nn in mm.assigns and nn.isupper():
                         return Evaluator(self.prog, mm, None, {}, self.call_hook).ev(mm.assigns[nn])
+                rs = getattr(self.call_hook, "resolve", None)
+                if rs is not None and r is not None:
+                    v = rs(r)
+                    if v is not NotImplemented:
+                        return v
                 raise
         if isinstance(e, ast.Attribute):
             # an object bound in the environment wins over class-level constants
